@@ -83,7 +83,7 @@ func treeWorldAO(r *Run, rng *Rng, w *treeWorld, maxLeaves int, fabIdx int64) {
 				allLeaves = append(allLeaves, leaf)
 				if outcome >= 82 && outcome < 90 && j == faultAt {
 					// storage fault at a random statement of this AddLeaf (reads included), then rollback
-					w.exec(r, fmt.Sprintf("addF %d %d %d %d %s", rng.Intn(70), bn, j, idx, hx0(leaf)))
+					w.exec(r, fmt.Sprintf("addF %d %d %d %d %s", faultStmt(rng), bn, j, idx, hx0(leaf)))
 					r.Count("branch:addF")
 					failed = true
 					break
@@ -185,7 +185,7 @@ func treeWorldUpd(r *Run, rng *Rng, w *treeWorld, nUpserts int) {
 			for j := 0; j < k; j++ {
 				pos := positions[rng.Intn(len(positions))]
 				if rng.Chance(15) {
-					w.exec(r, fmt.Sprintf("upsertF %d %d %d %d %s", rng.Intn(70), bn, j, pos, hx0(rndHash(rng))))
+					w.exec(r, fmt.Sprintf("upsertF %d %d %d %d %s", faultStmt(rng), bn, j, pos, hx0(rndHash(rng))))
 					r.Count("branch:upsertF")
 					i++
 					break // the failed statement leaves partial writes in the transaction: the caller must roll back
@@ -253,4 +253,13 @@ func treeGen(r *Run, rng *Rng) {
 	for i := 0; i < nUpd; i++ {
 		treeWorldUpd(r, rng, w, 8+rng.Intn(12))
 	}
+}
+
+// statement index of an injected fault: the boundaries between the phases of AddLeaf / UpsertLeaf
+// (last-root read, node reads, root insert, node inserts) half of the time, uniform otherwise
+func faultStmt(rng *Rng) int {
+	if rng.Bool() {
+		return []int{0, 1, 2, 31, 32, 33, 34, 35, 64, 65, 66}[rng.Intn(11)]
+	}
+	return rng.Intn(70)
 }
